@@ -375,3 +375,51 @@ def t_solend_stale(world):
 _t_ss = tasks
 def tasks(tier):
     return _t_ss(tier) + [('solend_stale', t_solend_stale)]
+
+
+# ---------------------------------------------------------------- C20.a/b (leaves used as opaque summaries above): scale_supplies, convert_decimals, Solend decimal_to_i80f48
+def t_scaling_leaves(world):
+    obs = []
+    POW = [10 ** k for k in range(24)]
+    for dec in (0, 6, 9, 18, 23):
+        pass
+    # scale_supplies: decimals enumerated (table lookup), values symbolic
+    f = world.fn(r'(^|::)scale_supplies$', crate='typecrate')
+    ob = Ob('C20.a.scale_supplies', 'scale_supplies(total, collateral supply, decimals): Some((l, c)) => l = trunc(total / 10^d), c = trunc(supply / 10^d) in I80F48 (never above the exact quotients for non-negative inputs); decimals > 23 => None',
+            [f.name], 'decimals enumerated 0..=24; total in [0, 2^100), supply any u64')
+    for d in list(range(0, 24, 3)) + [23, 24]:
+        eng = world.engine(primary='typecrate', extra=())
+        tot = eng.ex.fresh(I80, 'tot'); col = eng.ex.fresh('u64', 'col')
+        res = eng.run_fn(f, [tot, col, IntV(z3.IntVal(d), 'u8')]); ob.paths += len(res)
+        dom = [tot.e >= 0, tot.e < (1 << 100) * W]
+        for r in returned(res):
+            o = r['ret']; dd = zint(o.disc)
+            if ob.witness(eng, r, dom) is False: continue
+            if d > 23: ob.prove(eng, r, dom, dd == 0, f'decimals={d}: outside the table => None', role='scale-none'); continue
+            sc = POW[d] * W
+            if 1 not in o.payload:      # a None-only path (overflow branch): must be infeasible inside the domain
+                ob.prove(eng, r, dom, z3.BoolVal(False), f'decimals={d}: no None path inside the domain', role='scale-total'); continue
+            tup = o.payload[1][0]
+            l = ev(eng.get_path(tup, (('f', 0, I80),))); c = ev(eng.get_path(tup, (('f', 1, I80),)))
+            ob.prove(eng, r, dom + [dd == 1], z3.And(l == (tot.e * W) / sc, c == (col.e * W * W) / sc), f'decimals={d}: both quotients are the truncated I80F48 divisions by 10^{d}', role='scale-exact')
+            ob.prove(eng, r, dom, dd == 1, f'decimals={d}: Some for every value in the domain', role='scale-total')
+    ob.need_witness(); obs.append(ob)
+    # Solend WAD decoder
+    eng = world.engine(primary='solend', extra=('typecrate',))
+    f = world.fn(r'(^|::)decimal_to_i80f48$', 'solend')
+    a = eng.ex.fresh(f.params[0][1], 'bits')
+    res = eng.run_fn(f, [a])
+    ob = Ob('C20.b.solend-decimal', 'Solend decimal_to_i80f48: Ok(v) => v == floor(raw * 2^48 / 10^18) exactly (never above the exact value); Err iff the integer part does not fit 79 bits', [f.name], 'loop-free; all u128'); ob.paths = len(res)
+    raw = z3.Int('bits.le'); WAD = 10 ** 18
+    for r, okc in ok_paths(res):
+        if ob.witness(eng, r, [okc]) is False: continue
+        ob.prove(eng, r, [okc], z3.And(r['ret'].payload[0][0].e == (raw * W) / WAD, raw / WAD < (1 << 79)), 'bits == floor(raw * 2^48 / 10^18)', role='wad-exact')
+    for r, errc in ok_paths(res, 1):
+        ob.prove(eng, r, [errc], raw / WAD >= (1 << 79), 'Err only when the integer part needs 80 bits or more', role='wad-err')
+    ob.need_witness(); obs.append(ob)
+    return obs
+
+
+_t_sl = tasks
+def tasks(tier):
+    return _t_sl(tier) + [('scaling_leaves', t_scaling_leaves)]
